@@ -115,6 +115,18 @@ def run(ctx):
     deep = [v for v in res.vectors if v["obs"].get("kind") == "bytes" and len(v["prog"]) >= 5
             and sum(1 for p in v["prog"] if p["op"] == "write") >= 2]
     vectors += deep
+    # long histories on few tables (TLC simulation mode, seeded): a selection that is written modified, then unmodified, then modified
+    # again, and the like - depths the exhaustive runs cannot reach
+    sim = ctx.tlc("MC_C05", tag="MC_C04_sim", spec="Spec", workers=1, simulate="num=%d" % (300 if quick else 3000), depth=9, seed=ctx.seed + 17,
+                  constants=dict(consts, MaxDepth=9, MaxPool=5, Chunked=False, Sels=["tail", "list"], Ops=["write", "replace", "index"]),
+                  invariants=invs, properties=["Frame"])
+    seen = set()
+    for v in sim.vectors:
+        k = json.dumps(v["prog"], sort_keys=True)
+        if v["obs"].get("kind") == "bytes" and len(v["prog"]) >= 7 and sum(1 for p in v["prog"] if p["op"] == "write") >= 3 and k not in seen:
+            seen.add(k)
+            vectors.append(v)
+    ctx.notes.append("simulation mode: %d distinct long programs (>= 6 operations, >= 3 writes) replayed" % len(seen))
     if not quick:
         for v in vectors:
             v["nformats"] = 5
